@@ -303,10 +303,25 @@ void Kernel::AddActor(int64_t delay_ns, std::function<void(Kernel&)> fn) {
   proc->events.emplace(std::make_pair(now + delay_ns, ++proc->ev_seq), [self, fn]() { fn(*self); });
 }
 
+static void ChildSignal(Child& c, int sig, bool group);
+// ^C and a hang-up come from the terminal: they reach the whole foreground process group,
+// that is ninja and the console-pool command that shares its terminal (other commands run
+// in process groups of their own)
+static void SignalConsoleChildren(Kernel* k, int signo) {
+  if (signo != SIGINT && signo != SIGHUP) return;
+  for (auto& kv : k->proc->children) {
+    Child& c = kv.second;
+    if (!c.console || c.exited) continue;
+    k->Trace(Ev::kKill, c.pid, signo, "tty");
+    ChildSignal(c, signo, true);
+  }
+}
+
 void Kernel::SendSignal(int signo) {
   if (!proc) return;
   proc->pending |= 1ull << signo;
   Trace(Ev::kSignal, signo, 0, "sent");
+  SignalConsoleChildren(this, signo);
 }
 
 // ------------------------------------------------------------------ leaving a process
@@ -378,6 +393,7 @@ static Sys SysEnter(char kind, bool cookie = false) {
       p->pending |= 1ull << s.second;
       Fired("signal_at_syscall");
       g_k->Trace(Ev::kSignal, s.second, 0, "pending");
+      SignalConsoleChildren(g_k, s.second);
     }
   if (!p->doomed && DeliverableSignal(p->blocked)) DeliverSignals(p->blocked, !cookie);
   if (p->doomed) {
@@ -527,7 +543,7 @@ static void ScheduleChild(Kernel* k, int pid) {
 }
 
 // kill(2) semantics for a scripted child
-static void ChildSignal(Child& c, int sig, bool group = true) {
+static void ChildSignal(Child& c, int sig, bool group) {
   if (c.exited) return;
   if (sig == 0) return;
   int mode = c.plan.on_signal;
